@@ -25,8 +25,19 @@ deriving Repr, Inhabited
 
 /-! ### `key_from_selector` -/
 
-/-- `\w` on ASCII (the regex is Unicode-aware; non-ASCII selectors are outside the modelled domain) -/
-def isWord (c : Char) : Bool := c.isAlphanum || c == '_'
+/-- non-ASCII letters of the scripts the correspondence run uses (Latin-1 letters and Latin Extended,
+    Greek, Cyrillic, kana, CJK ideographs): the part of the regex crate's Unicode `\w` class the model
+    carries. Other non-ASCII characters (symbols, emoji) are not word characters; the class itself is
+    the regex crate's (external). -/
+def nonAsciiWord (c : Char) : Bool :=
+  let v := c.toNat
+  (0xC0 ≤ v && v ≤ 0x24F && v != 0xD7 && v != 0xF7) || (0x370 ≤ v && v ≤ 0x373) || (0x376 ≤ v && v ≤ 0x377)
+    || (0x37B ≤ v && v ≤ 0x37D) || (0x388 ≤ v && v ≤ 0x3FF && v != 0x38B && v != 0x38D && v != 0x3A2 && v != 0x3F6)
+    || (0x400 ≤ v && v ≤ 0x481) || (0x48A ≤ v && v ≤ 0x52F)
+    || (0x3041 ≤ v && v ≤ 0x3096) || (0x30A1 ≤ v && v ≤ 0x30FA) || (0x4E00 ≤ v && v ≤ 0x9FFF)
+
+/-- `\w` (ASCII exactly; non-ASCII as far as `nonAsciiWord` goes) -/
+def isWord (c : Char) : Bool := c.isAlphanum || c == '_' || nonAsciiWord c
 def isHex (c : Char) : Bool := c.isDigit || ('a' ≤ c && c ≤ 'f') || ('A' ≤ c && c ≤ 'F')
 
 /-- `^[#.][\w\\-]+` : the text matched after the lead character -/
